@@ -15,7 +15,7 @@ import NeumannModel.TwoPC.Model
   Not modelled: the coordinator-local lock manager (`release_by_handle_with_wait_cleanup` of the YES
   votes' handles, `cleanup_expired_with_wait_cleanup`) and the wait-for graph — that lock manager is
   only filled by the coordinator-local `handle_prepare`, it is empty throughout when real
-  `TxParticipant`s do the locking; WAL-based recovery (`recover_from_wal`, C13), whose sixth counter
+  `TxParticipant`s do the locking; WAL-based recovery (`recover_from_wal`: `Wal.lean`), whose sixth counter
   `lock_releases_recovered` is always 0 in `recover`.
 -/
 namespace Neumann.TwoPC
